@@ -82,6 +82,33 @@ type Rec struct {
 	E map[string]int
 }
 
+// typed, self-referential and deeply nested structs: reached through the encoder's out-of-line
+// recursion (OP_recurse) rather than through interface{} - field names are in byte order
+type Tree struct {
+	A float64
+	B []Tree
+	C map[string]*Tree
+	D *Tree
+	E interface{}
+	F []float64
+	G map[string]float64
+	H string
+}
+
+type D1 struct{ A D2 }
+type D2 struct{ A D3 }
+type D3 struct{ A D4 }
+type D4 struct{ A D5 }
+type D5 struct {
+	A float64
+	B []int
+	C map[string]int
+	D string
+	E interface{}
+}
+
+const nanSentinel = 123456789.25
+
 // value trees from which both a value and its transformed twin are built
 type node struct {
 	k    int
@@ -110,14 +137,19 @@ const (
 	kBadStr
 	kNilIntSlice
 	kNilIntMap
+	kTree
+	kDeep
 )
 
 type genOpt struct{ nan, tm, jm, jmLoose, jmBad, badStr, html, nils bool }
 
 func genNode(r *rng.R, o genOpt, d int) *node {
-	k := r.Intn(14)
-	if d >= 3 && (k == 6 || k == 8 || k == 12) {
+	k := r.Intn(17)
+	if d >= 3 && (k == 6 || k == 8 || k == 12 || k >= 14) {
 		k = r.Intn(6)
+	}
+	if k >= 14 {
+		return genTyped(r, o, d, k == 16)
 	}
 	switch k {
 	case 0:
@@ -208,6 +240,84 @@ func genNode(r *rng.R, o genOpt, d int) *node {
 	}
 }
 
+// typed struct values: kids[0] = E (any), kids[1:] = nested trees (B), next = D, keys/m = C
+func genTyped(r *rng.R, o genOpt, d int, deep bool) *node {
+	nd := &node{k: kTree, f: []float64{0, 1.5, -2.25, 1e21}[r.Intn(4)]}
+	if deep {
+		nd.k = kDeep
+	}
+	if o.nan && r.Chance(1, 2) {
+		nd.b = true // A (and one element of F / G) is NaN or Inf
+		nd.f = []float64{math.NaN(), math.Inf(1), math.Inf(-1)}[r.Intn(3)]
+	}
+	nd.i = int64(r.Intn(4)) // 0: nil slices/maps, 1: empty, 2,3: populated
+	if !o.nils && nd.i == 0 {
+		nd.i = 1
+	}
+	s := jgen.StrContent(r, &jgen.Opts{Escapes: true, NonASCII: true})
+	if o.html && r.Chance(1, 2) {
+		s += "<a&b>\u2028"
+	}
+	if o.badStr && r.Chance(1, 2) {
+		s += "\xff\xc0z"
+		nd.keys = []string{"bad"}
+	}
+	nd.s = s
+	nd.kids = append(nd.kids, genNode(r, o, d+2))
+	if !deep && d < 2 && nd.i >= 2 {
+		for i, c := 0, r.Intn(3); i < c; i++ {
+			nd.kids = append(nd.kids, genTyped(r, o, d+1, false))
+		}
+	}
+	return nd
+}
+
+func buildTree(nd *node, x xform) Tree {
+	t := Tree{A: nd.f, H: nd.s, E: build(nd.kids[0], x)}
+	if nd.b && x.nanToNil {
+		t.A = nanSentinel
+	}
+	if len(nd.keys) > 0 && x.fixUTF8 {
+		t.H = fixBytewise(nd.s)
+	}
+	switch {
+	case nd.i == 0 && !x.nilToEmpty:
+	case nd.i <= 1:
+		t.B, t.C, t.F, t.G = []Tree{}, map[string]*Tree{}, []float64{}, map[string]float64{}
+	default:
+		t.B, t.C, t.F, t.G = []Tree{}, map[string]*Tree{}, []float64{1, t.A}, map[string]float64{"x": t.A, "y": 2}
+		for i, c := range nd.kids[1:] {
+			ct := buildTree(c, x)
+			switch i % 3 {
+			case 0:
+				t.B = append(t.B, ct)
+			case 1:
+				t.C["k"+strconv.Itoa(i)] = &ct
+			default:
+				t.D = &ct
+			}
+		}
+	}
+	return t
+}
+
+func buildDeep(nd *node, x xform) D1 {
+	d := D5{A: nd.f, D: nd.s, E: build(nd.kids[0], x)}
+	if nd.b && x.nanToNil {
+		d.A = nanSentinel
+	}
+	if len(nd.keys) > 0 && x.fixUTF8 {
+		d.D = fixBytewise(nd.s)
+	}
+	if nd.i >= 1 || x.nilToEmpty {
+		d.B, d.C = []int{}, map[string]int{}
+	}
+	if nd.i >= 2 {
+		d.B, d.C = []int{1, 2}, map[string]int{"b": 1, "a": 2}
+	}
+	return D1{D2{D3{D4{d}}}}
+}
+
 type xform struct {
 	nilToEmpty bool
 	nanToNil   bool
@@ -241,9 +351,13 @@ func build(nd *node, x xform) interface{} {
 		return nd.i
 	case kFloat:
 		return nd.f
+	case kTree:
+		return buildTree(nd, x)
+	case kDeep:
+		return buildDeep(nd, x)
 	case kNaN:
 		if x.nanToNil {
-			return nil
+			return nanSentinel
 		}
 		return nd.f
 	case kStr:
@@ -498,13 +612,60 @@ func count(sw string, nontrivial bool) {
 	}
 }
 
+// via selects the entry point used for BOTH sides of a comparison (set per iteration):
+// 0 Marshal, 1 MarshalToString, 2 stream Encoder, 3 MarshalIndent + json.Compact, 4 encoder.EncodeInto
+var via int
+
 func marshal(cfg sonic.Config, v interface{}) (s string, err error) {
 	defer func() {
 		if e := recover(); e != nil {
 			err = fmt.Errorf("PANIC: %v", e)
 		}
+		if err != nil && strings.HasPrefix(err.Error(), "PANIC") {
+			fail(fmt.Sprintf("crash/via%d", via), 0, desc(v)+fmt.Sprintf(" cfg=%+v", cfg), err.Error(), "an ordinary result or error")
+		}
 	}()
-	b, e := cfg.Froze().Marshal(v)
+	api := cfg.Froze()
+	switch via {
+	case 1:
+		return api.MarshalToString(v)
+	case 2:
+		var w bytes.Buffer
+		if e := api.NewEncoder(&w).Encode(v); e != nil {
+			return "", e
+		}
+		out := w.String()
+		if !cfg.NoEncoderNewline {
+			if !strings.HasSuffix(out, "\n") {
+				return out, fmt.Errorf("PANIC: stream encoder wrote no newline")
+			}
+			out = out[:len(out)-1]
+		}
+		return out, nil
+	case 3:
+		b, e := api.MarshalIndent(v, "", " ")
+		if e != nil {
+			return "", e
+		}
+		var c bytes.Buffer
+		if json.Compact(&c, b) == nil {
+			return c.String(), nil
+		}
+		b, e = api.Marshal(v)
+		return string(b), e
+	case 4:
+		eo, _ := sonic.VerifFrozenOptions(cfg)
+		buf := make([]byte, 0, 16)
+		e := encoder.EncodeInto(&buf, v, encoder.Options(eo))
+		if uint(len(buf)) > uint(cap(buf)) || uint(len(buf)) > 1<<40 {
+			return fmt.Sprintf("len=%#x cap=%d", len(buf), cap(buf)), fmt.Errorf("PANIC: EncodeInto left the caller's buffer with length %#x > capacity %d (err=%v)", len(buf), cap(buf), e)
+		}
+		return string(buf), e
+	}
+	b, e := api.Marshal(v)
+	if uint(len(b)) > uint(cap(b)) {
+		return fmt.Sprintf("len=%#x cap=%d", len(b), cap(b)), fmt.Errorf("PANIC: Marshal returned a slice with length %#x > capacity %d (err=%v)", len(b), cap(b), e)
+	}
 	return string(b), e
 }
 
@@ -545,10 +706,11 @@ func with(bits uint64, name string) uint64 { return bits | 1<<uint(fieldIndex(na
 
 func encoderEffects(r *rng.R, rounds int) {
 	for it := 0; it < rounds; it++ {
+		via = r.Intn(5)
 		// EscapeHTML: on == json.HTMLEscape(off)
 		{
 			base := with(others(r, "EscapeHTML", "SortMapKeys"), "SortMapKeys")
-			nd := genNode(r, genOpt{html: true, tm: true, jm: true, nils: true}, 0)
+			nd := genNode(r, genOpt{html: true, tm: true, jm: true, nils: true, badStr: true}, 0)
 			v := build(nd, xform{})
 			off, e0 := marshal(cfgOfBits(base), v)
 			on, e1 := marshal(cfgOfBits(with(base, "EscapeHTML")), v)
@@ -602,6 +764,7 @@ func encoderEffects(r *rng.R, rounds int) {
 			off, e0 := marshal(cfgOfBits(base), v)
 			on, e1 := marshal(cfgOfBits(with(base, "EncodeNullForInfOrNan")), v)
 			want, e2 := marshal(cfgOfBits(base), v2)
+			want = strings.ReplaceAll(want, "123456789.25", "null")
 			count("EncodeNullForInfOrNan", has)
 			if (e0 != nil) != has {
 				fail("EncodeNullForInfOrNan", base, desc(v), errs(e0)+":"+off, "error iff NaN/Inf present")
@@ -624,6 +787,9 @@ func encoderEffects(r *rng.R, rounds int) {
 			}
 		}
 		// CompactMarshaler: on(v) == off(v with every Marshaler output json.Compact'ed); invalid output is an error
+		if via == 3 {
+			via = 0 // the indent round trip would compact the Marshaler output itself
+		}
 		{
 			base := others(r, "CompactMarshaler", "SortMapKeys", "NoValidateJSONMarshaler")
 			base = with(base, "SortMapKeys")
@@ -684,6 +850,7 @@ func encoderEffects(r *rng.R, rounds int) {
 			}
 		}
 		// NoEncoderNewline: the stream encoder writes Marshal's bytes plus "\n" unless the switch is on
+		via = 0
 		{
 			base := with(others(r, "NoEncoderNewline", "SortMapKeys"), "SortMapKeys")
 			nd := genNode(r, genOpt{nils: true}, 0)
@@ -828,6 +995,7 @@ func hasHugeNumber(doc string) bool { // literals that overflow float64: error p
 }
 
 func decoderEffects(r *rng.R, rounds int) {
+	via = 0
 	jo := jgen.Default
 	jo.DupKeys = false
 	for it := 0; it < rounds; it++ {
@@ -990,6 +1158,7 @@ func decoderEffects(r *rng.R, rounds int) {
 // ------------------------------------------------------------------ entry points
 
 func entryPoints(r *rng.R, rounds int) {
+	via = 0
 	jo := jgen.Default
 	for it := 0; it < rounds; it++ {
 		nd := genNode(r, genOpt{nils: true, html: true, tm: true, jm: true, nan: it%7 == 0}, 0)
@@ -1041,7 +1210,7 @@ func entryPoints(r *rng.R, rounds int) {
 			x, ex := enc.Encode(v)
 			y, ey := cfg.Froze().Marshal(v)
 			count("entry/EncoderSetters", true)
-			if !sk && hasKind(nd, kMap) {
+			if !sk {
 				// unsorted maps: compare as ordered trees after sorting
 				tx, e1 := ordered(x)
 				ty, e2 := ordered(y)
